@@ -314,3 +314,158 @@ def u_elambdas(c):
         c.cover("lambda/cancel")
         c.oblige("cancel/pending-inner-cancelled", Implies(snap.st_of(fut) == PENDING, st(fut) == CANCELLED))
         c.oblige("cancel/done-inner-untouched", Implies(Not(snap.st_of(fut) == PENDING), st(fut) == snap.st_of(fut)))
+
+
+# ---------------------------------------------------------------------------------------------
+# Bounded run-time stand-in (history level): the real Condition and Event on a virtual-time loop against reference machines.
+def standin(tier, seed):
+    """every history of <= 5 operations (then seeded longer ones): Condition - wait / wait with a 1 s timeout / wait(0) / notify(1) / notify(2) / notify_all / cancel a pending
+    wait / time passing; Event - wait / timed wait / set / clear / cancel / time passing.  After every step the status of every wait issued so far is the reference's:
+    notify(n) wakes exactly the min(n, live) oldest live waiters with True, a timed-out wait is False (condition) or TimeoutError (event) and is never counted, an event's
+    wait completes iff the event is set at or after the call before its deadline; at the end no finished wait is left in the event's waiter set"""
+    import asyncio
+    import datetime
+    import itertools
+    import random
+    import time
+    from pyvc.standin import vloop
+    import tornado.locks as L
+    t0 = time.time()
+    rng = random.Random(seed)
+    evals, nontriv, failures, samples = 0, set(), [], []
+    COND_OPS = ["wait", "wait_t", "wait_0", "notify1", "notify2", "notify_all", "cancel-oldest", "cancel-newest", "adv"]
+    EVENT_OPS = ["wait", "wait_t", "set", "clear", "cancel-oldest", "cancel-newest", "adv", "cancel-oldest+set", "adv+1tick+set", "adv+2ticks+set"]
+    # (the composite operations call set() in the window right after another wait was cancelled / timed out, before the loop has run its clean-up callbacks)
+
+    def status(f):
+        if not f.done():
+            return ("pending", None)
+        if f.cancelled():
+            return ("dead", "CancelledError")
+        if f.exception() is not None:
+            return ("dead", type(f.exception()).__name__)
+        return ("done", f.result())
+
+    def run_cond(seq):
+        async def main(v):
+            cnd = L.Condition()
+            real, ref = [], []          # ref: dict(state, value, deadline)
+            for op in seq:
+                if op.startswith("wait"):
+                    to = None if op == "wait" else datetime.timedelta(seconds=(1 if op == "wait_t" else 0))
+                    real.append(asyncio.ensure_future(cnd.wait(to)) if False else cnd.wait(to))
+                    ref.append(dict(state="pending", value=None, deadline=(None if to is None else v.now + to.total_seconds())))
+                elif op.startswith("notify"):
+                    live = [r_ for r_ in ref if r_["state"] == "pending"]
+                    n = {"notify1": 1, "notify2": 2, "notify_all": len(live) + 5}[op]
+                    if op == "notify_all":
+                        cnd.notify_all()
+                    else:
+                        cnd.notify(n)
+                    for r_ in live[:n]:
+                        r_.update(state="done", value=True)
+                elif op.startswith("cancel"):
+                    pend = [k for k, r_ in enumerate(ref) if r_["state"] == "pending"]
+                    if pend:
+                        k = pend[0] if op == "cancel-oldest" else pend[-1]
+                        real[k].cancel()
+                        ref[k].update(state="dead", value="CancelledError")
+                elif op == "adv":
+                    v.advance(1.5)
+                await v.settle()
+                for r_ in ref:
+                    if r_["state"] == "pending" and r_["deadline"] is not None and r_["deadline"] <= v.now:
+                        r_.update(state="done", value=False)
+                await v.settle()
+                for k, (f, r_) in enumerate(zip(real, ref)):
+                    got, want = status(f), (r_["state"], r_["value"])
+                    if got != want:
+                        return "after %r, wait #%d is %r, the reference condition says %r" % (op, k, got, want)
+            return None
+        return vloop.run_history(main)
+
+    def run_event(seq):
+        async def main(v):
+            ev = L.Event()
+            real, ref, is_set = [], [], False
+            for op in seq:
+                if op in ("wait", "wait_t"):
+                    to = None if op == "wait" else datetime.timedelta(seconds=1)
+                    f = ev.wait(to)
+                    f = f if asyncio.isfuture(f) else asyncio.ensure_future(f)
+                    real.append(f)
+                    ref.append(dict(state=("done" if is_set else "pending"), value=None, deadline=(None if to is None else v.now + 1)))
+                elif op == "set" or op.endswith("+set"):
+                    if op.startswith("cancel-oldest"):
+                        pend = [k for k, r_ in enumerate(ref) if r_["state"] == "pending"]
+                        if pend:
+                            real[pend[0]].cancel()
+                            ref[pend[0]].update(state="dead", value="CancelledError")
+                    elif op.startswith("adv"):
+                        v.advance(1.5)
+                        await v.tick(1 if "1tick" in op else 2)
+                        for r_ in ref:
+                            if r_["state"] == "pending" and r_["deadline"] is not None and r_["deadline"] <= v.now:
+                                r_.update(state="dead", value="TimeoutError")
+                    try:
+                        ev.set()
+                    except Exception as e:     # noqa: B902
+                        return "set() raised %s: %s" % (type(e).__name__, e)
+                    is_set = True
+                    for r_ in ref:
+                        if r_["state"] == "pending":
+                            r_.update(state="done", value=None)
+                elif op == "clear":
+                    ev.clear()
+                    is_set = False
+                elif op.startswith("cancel"):
+                    pend = [k for k, r_ in enumerate(ref) if r_["state"] == "pending"]
+                    if pend:
+                        k = pend[0] if op == "cancel-oldest" else pend[-1]
+                        real[k].cancel()
+                        ref[k].update(state="dead", value="CancelledError")
+                elif op == "adv":
+                    v.advance(1.5)
+                await v.settle()
+                for r_ in ref:
+                    if r_["state"] == "pending" and r_["deadline"] is not None and r_["deadline"] <= v.now:
+                        r_.update(state="dead", value="TimeoutError")
+                await v.settle()
+                if ev.is_set() != is_set:
+                    return "after %r is_set() is %r" % (op, ev.is_set())
+                for k, (f, r_) in enumerate(zip(real, ref)):
+                    got, want = status(f), (r_["state"], r_["value"])
+                    if got != want:
+                        return "after %r, wait #%d is %r, the reference event says %r" % (op, k, got, want)
+            await v.settle()
+            left = [w for w in ev._waiters if w.done()]
+            if left:
+                return "finished waits were left in the event's waiter set: %d" % len(left)
+            return None
+        return vloop.run_history(main)
+    depth = 4
+    for kind, ops, runner in (("condition", COND_OPS, run_cond), ("event", EVENT_OPS, run_event)):
+        for Ln in range(1, depth + 1):
+            for seq in itertools.product(ops, repeat=Ln):
+                if not seq[0].startswith("wait"):
+                    continue
+                evals += 1
+                f = runner(seq)
+                if any(o.startswith("cancel") or o == "adv" for o in seq):
+                    nontriv.add((kind, seq))
+                if f and len(failures) < 4:
+                    failures.append({"what": "[%s] %s" % (kind, f), "history": {"object": kind, "operations": list(seq)}})
+        N = 1500 if tier == "quick" else 15000
+        for _ in range(N if not failures else 0):
+            seq = ("wait",) + tuple(rng.choice(ops) for _ in range(rng.randint(4, 10)))
+            evals += 1
+            f = runner(seq)
+            nontriv.add((kind, seq))
+            if f and len(failures) < 4:
+                failures.append({"what": "[%s] %s" % (kind, f), "history": {"object": kind, "operations": list(seq)}})
+    samples.append({"history": "condition: wait wait_t adv notify1 -> the first wait is woken, the timed-out one is False and is not counted"})
+    return {"evaluations": evals, "distinct_nontrivial": len(nontriv), "failures": failures[:3], "samples": samples,
+            "rule": "all histories of <= %d operations starting with a wait, from %s (Condition) and %s (Event), then seeded histories of 5-11 operations, on a virtual-time loop: after every "
+                    "step the status of every wait issued so far equals the reference machine's; at the end of an event history no finished wait is left in its waiter set; non-trivial = "
+                    "contains a cancellation or a passage of time" % (depth, COND_OPS, EVENT_OPS),
+            "exhaustive_to_depth": depth, "wall_s": round(time.time() - t0, 2)}
